@@ -167,6 +167,9 @@ fn gen_long(t: &mut Tape) -> SeqCase {
 pub fn check(ctx: &mut Ctx) {
     ctx.rule = "cases = sequences of tag bodies / text pieces rendered with a delimiter pair. Exhaustive: every sequence of length <= L over {open a, open b, close a, close b, close z (unknown), text, open a with an attribute}; random: 9..48 pieces over 4 names, attributes, blank / unparsable tags, 4 delimiter pairs. Oracle: (open,close,depth) pairs and document order from parser::parse == reference stack machine. Non-trivial = the sequence contains a crossing, a same-name nesting or a stray closer.".into();
     ctx.assume("tokenization is exercised separately (C07/C08); here token starts are additionally compared with the generated pieces");
+    for c in ["crossing", "stray-closer", "same-name-nesting", "unclosed-opener"] {
+        ctx.require_class(c);
+    }
     ctx.replay_corpus(replay);
     let l = ctx.tier.pick(8usize, 9usize);
     // units: first two atoms
